@@ -108,6 +108,79 @@ func c14Fixed() [][]byte {
 		out = append(out, append(b, 'Z'))
 		out = append(out, []byte{'C', 4, 'b', 'e', 'a', 'n', 'I', 0, 0x10, 0, 0})
 	}
+	// back-reference amplification (each found by a seeding sub-agent on the then-current tree):
+	// n references to one list / map from typed fields, queued destinations, a list whose
+	// elements refer to itself, a typed list of references to one map, a long unknown field
+	// name repeated for every instance
+	{
+		n := 9000
+		var b []byte
+		b = append(b, 0x58)
+		b = append(b, encInt(int32(n+1))...)
+		b = append(b, 0x58)
+		b = append(b, encInt(int32(n))...)
+		for i := 0; i < n; i++ {
+			b = append(b, 0x90)
+		}
+		b = append(b, "C\x05SlI32\x91\x01l"...)
+		for i := 0; i < n; i++ {
+			b = append(b, 0x60, 0x51, 0x91)
+		}
+		out = append(out, b)
+		n = 2500
+		b = append([]byte{0x58}, encInt(int32(n+1))...)
+		b = append(b, 'H')
+		for i := 0; i < n; i++ {
+			b = append(b, 3, byte('a'+i%26), byte('a'+i/26%26), byte('a'+i/676), 0xe0)
+		}
+		b = append(b, 'Z')
+		b = append(b, "C\x08MpStrI64\x91\x01m"...)
+		for i := 0; i < n; i++ {
+			b = append(b, 0x60, 0x51, 0x91)
+		}
+		out = append(out, b)
+		n = 16000
+		b = append([]byte{}, "C\x06AmpTop\x91\x01lC\x04AmpN\x91\x01r\x60\x58"...)
+		b = append(b, encInt(int32(n))...)
+		for i := 0; i < n; i++ {
+			b = append(b, 0x61, 0x51, 0x91)
+		}
+		out = append(out, b)
+		n = 30000
+		b = append([]byte{}, "C\x08RecConts\x93\x01t\x01j\x01n\x60\x57"...)
+		for i := 0; i < n; i++ {
+			b = append(b, 0x51, 0x91)
+		}
+		out = append(out, append(b, 'Z', 'N', 0x90))
+		b = append([]byte{0x57}, make([]byte, 0)...)
+		for i := 0; i < n; i++ {
+			b = append(b, 0x51, 0x90)
+		}
+		out = append(out, append(b, 'Z'))
+		n = 3000
+		b = append([]byte{0x7a, 'H'}, make([]byte, 0)...)
+		for i := 0; i < n; i++ {
+			b = append(b, 3, byte('a'+i%26), byte('a'+i/26%26), byte('a'+i/676), 0xe0)
+		}
+		b = append(b, 'Z', 'V', 2, '[', 'm')
+		b = append(b, encInt(int32(n*3))...)
+		for i := 0; i < n*3; i++ {
+			b = append(b, 0x51, 0x91)
+		}
+		out = append(out, b)
+		n = 20000
+		b = append([]byte{}, "C\x09IntFields\x91S"...)
+		b = append(b, byte(n>>8), byte(n))
+		for i := 0; i < n; i++ {
+			b = append(b, 'x')
+		}
+		b = append(b, 0x58)
+		b = append(b, encInt(int32(n))...)
+		for i := 0; i < n; i++ {
+			b = append(b, 0x60, 'N')
+		}
+		out = append(out, b)
+	}
 	// "billion laughs": l1 = [l0, l0], l2 = [l1, l1], ... as lists and as maps, typed and untyped
 	for _, depth := range []int{20, 24, 40} {
 		for _, typed := range []bool{true, false} {
